@@ -732,7 +732,13 @@ func GenOp(r *rand.Rand, w *World, cfg GenCfg, kind string) *Op {
 		}
 	}
 	if (kind == "query" || kind == "mutation") && !cfg.Off["roottypename"] && g.chance(0.1) {
-		og.op.Sel = append(og.op.Sel, &Sel{K: "F", Key: "__typename", Name: "__typename"})
+		tn := &Sel{K: "F", Key: "__typename", Name: "__typename"}
+		if g.chance(0.5) {
+			// in front of the service's fields: the step the gateway answers itself may then come first in the plan
+			og.op.Sel = append([]*Sel{tn}, og.op.Sel...)
+		} else {
+			og.op.Sel = append(og.op.Sel, tn)
+		}
 		og.tag["root-typename"] = true
 	}
 	// response keys of object-valued fields that occur at more than one place of the operation
